@@ -584,9 +584,12 @@ type ingestCfg struct {
 	itype    string
 	behind   int64
 	ahead    int64
-	limits   *models.Limits
-	enriched tag.Tags
-	reqNs    string
+	// the same window as option text, and whether the batch goes through a real channel manager
+	behindText, aheadText string
+	realChan              bool
+	limits                *models.Limits
+	enriched              tag.Tags
+	reqNs                 string
 }
 
 // route is databaseChannel.Write without the channels: evict, group by shard, group by family, write each group's
@@ -710,6 +713,10 @@ func ingestBatch(rec *trace.Recorder, g *ingestGen, cfg *ingestCfg, format strin
 		counts["rows:"+format]++
 	}
 	rec.Emit("ParseEnd", trace.F{"cnt": len(rows), "err": ""})
+	if cfg.realChan {
+		chanRoute(rec, cfg, batch, sum) // releases the batch itself (ChannelManager.Write)
+		return
+	}
 	ingestRoute(rec, cfg, batch, sum)
 	if release {
 		batch.Release()
@@ -725,6 +732,7 @@ func ingestMain(args []string) int {
 	batches := fs.Int("batches", 4, "batches per sub-trace")
 	maxRows := fs.Int("rows", 20, "max metrics per batch")
 	poolRounds := fs.Int("findings", 2, "sub-traces per recorded finding")
+	chanRounds := fs.Int("chan", 0, "sub-traces whose batch is routed by a real replica.ChannelManager")
 	_ = fs.Parse(args)
 	sum := &trace.Summary{Module: "Ingest", Extra: map[string]any{}}
 	counts := map[string]int{}
@@ -807,6 +815,18 @@ func ingestMain(args []string) int {
 			for b := 0; b < *batches; b++ {
 				ingestBatch(rec, g, cfg, formats[(i+b)%3], 1+r.Intn(*maxRows), fb, sum, counts, false)
 			}
+		}
+		// chan: the batch goes through the broker's real channel manager / database channel / family channels;
+		// the write window comes from the database option (asymmetric windows included)
+		for i := 0; i < *chanRounds; i++ {
+			cfg := mkCfg(r)
+			cfg.realChan = true
+			b, a := chanDurations[r.Intn(len(chanDurations))], chanDurations[r.Intn(len(chanDurations))]
+			cfg.behind, cfg.behindText, cfg.ahead, cfg.aheadText = b.ms, b.text, a.ms, a.text
+			cfg.shards = []int32{1, 2, 3, 4, 8}[r.Intn(5)]
+			g := newIngestGen(r, cfg.limits, time.Now().UnixMilli(), cfg.behind, cfg.ahead)
+			rec.Reset(resetEvent("chan", cfg))
+			ingestBatch(rec, g, cfg, formats[i%3], 4+r.Intn(*maxRows), fb, sum, counts, false)
 		}
 	})
 	run(*outPool, func(rec *trace.Recorder, r *rand.Rand) {
